@@ -128,8 +128,11 @@ def _options(tier, factor):
     yield (True, None)
     if factor >= 3:
         yield (False, (0, factor - 1))
+        # select refers to CALENDAR positions inside the coarse period, also when missing members are discarded afterwards
+        yield (True, (0, 1))
         if tier == "thorough":
             yield (True, (1,))
+            yield (True, (factor - 1,))
 
 
 def _compare(run, key, finding, case, got, exp, assume, names):
